@@ -171,6 +171,14 @@ def cases_for(tier, rng):
         ns9 = dict(NS, rec=rec(bd), d1=plain('yes'), zero=plain('z', False), rv=plain('OUTER'), other=plain('INNER'))
         cases.append(dict(prog=[T('<'), V('rec'), T('>')] + tail, src=sources(kw=ns9), K=0, fk=[]))
         cases.append(dict(prog=[T('<'), Try([V('rec')], [([], [T('H')])], [T('E')]), T('>')] + tail, src=sources(kw=ns9), K=2, fk=['ValueError']))
+    # 10. the message of dtml-raise is the rendered body as it is -- leading / trailing blanks and line ends included -- whatever
+    #     class is raised (builtins, the application server's HTTP exceptions)
+    for cls in ('KeyError', 'ValueError', 'Redirect', 'NotFound', 'RuntimeError'):
+        for bd in ([T(' http://h/next ')], [T('  http://h/a?b=c\n')], [T('u'), V('v'), T('\t')], [T('  '), V('v')], [T('plain')]):
+            for names in (['Exception'], [cls], ['HTTPException', ''], ['LookupError', 'ValueError']):
+                cases.append(dict(prog=[Try([Raise(cls, bd)], [([n_] if n_ else [], [T('['), V('error_type'), T('|'), V('error_value'), T(']')])
+                                                               for n_ in names], None)] + tail, src=src(), K=0, fk=[]))
+            cases.append(dict(prog=[T('a'), Raise(cls, bd)], src=src(), K=0, fk=[]))
     # 5. sub-template: return ends only the sub-template's call
     sub = tmpl('sub', [T('S1'), Try([Return(N('rv'))], [([], [T('never')])], None), T('S2')])
     ns = dict(NS, sub=sub)
